@@ -119,6 +119,17 @@ pub fn run(_args: &[String]) -> i32 {
             ("accts/bank.savings/tx.ledger".into(), e[3].clone()),
             ("accts/bank/other.ledger".into(), "2024/02/05 not matched: another file name\n    A    555 JPY\n    B\n\n".into()),
         ]),
+        // the same include TEXT in two directories means two different files: a path is always taken relative to the including file (seed C11-l)
+        ("two directories whose index files carry the same include lines", vec![
+            ("main.ledger".into(), format!("{}include y2023/index.ledger\n\ninclude y2024/index.ledger\n\n{}", e[0], e[6])),
+            ("y2023/index.ledger".into(), "include opening.ledger\n\ninclude txns/*.ledger\n\n".into()),
+            ("y2023/opening.ledger".into(), e[1].clone()),
+            ("y2023/txns/01.ledger".into(), e[2].clone()),
+            ("y2024/index.ledger".into(), "include opening.ledger\n\ninclude txns/*.ledger\n\n".into()),
+            ("y2024/opening.ledger".into(), e[3].clone()),
+            ("y2024/txns/01.ledger".into(), e[4].clone()),
+            ("y2024/txns/02.ledger".into(), e[5].clone()),
+        ]),
         ("question-mark glob and a file included from two places in a row", vec![
             ("main.ledger".into(), format!("{}include p?.ledger\n\n{}{}{}{}", e[0], e[3], e[4], e[5], e[6])),
             ("p1.ledger".into(), e[1].clone()),
